@@ -2,7 +2,8 @@
    Only statements; each is closed by a lemma proved in theories/. *)
 From ZV Require Import Prelude GoSem Abi VmReceive VmReceiveProofs Emb EmbProofs Locks LocksProofs LocksBacked.
 From ZV Require Import Liquidity LiquidityProofs Bridge BridgeProofs.
-From ZV.gen Require Import Consts Pure.
+From ZV.gen Require Import Consts Pure PureRelease.
+From ZV Require Import ReleaseSource.
 Open Scope Z_scope.
 
 (* ---- backing: for every history (queue) of calls processed by generateEmbeddedReceive - applied or refunded -
@@ -295,3 +296,87 @@ Example C10_pillar_window_example :
   PillarGetRevokeStatus (1000 + Consts.PillarEpochLockTime - 1) 1000 = Ok (false, 1) /\
   PillarGetRevokeStatus (1000 + Consts.PillarEpochLockTime) 1000 = Ok (true, Consts.PillarEpochRevokeTime).
 Proof. vm_compute. split; reflexivity. Qed.
+
+(* ---- the release rules proved DIRECTLY about the code: the ReceiveBlock methods that pay locked funds out are translated
+   from /repo's source by go2coq on every run (gen/PureRelease.v; oracles: the entry read from storage, the frontier
+   momentum, the window verdicts, the hash comparison, the results of Save / Delete); a result is (descendant blocks as
+   (ToAddress, Amount, TokenStandard), error, written entry fields, effects). See theories/ReleaseSource.v. *)
+Theorem C10_source_cancel_stake_payout : forall rt amt v u g f exp now sv owner bl rt' amt' eff,
+  CancelStake_receive rt amt v u g f exp now sv owner = Ok (bl, 0, rt', amt', eff) ->
+  bl = [(owner, amt, ZnnTokenStandard)] /\ exp <= now /\ v = 0 /\ g = 0 /\
+  rt' = now /\ amt' = 0 /\ eff = Some 1.
+Proof. exact cancel_stake_payout. Qed.
+Theorem C10_source_cancel_stake_refusal : forall rt amt v u g f exp now sv owner bl e rt' amt' eff,
+  CancelStake_receive rt amt v u g f exp now sv owner = Ok (bl, e, rt', amt', eff) -> e <> 0 ->
+  bl = [] /\ rt' = rt /\ amt' = amt /\ eff = None.
+Proof. exact cancel_stake_refusal. Qed.
+Theorem C10_source_cancel_stake_twice : forall rt amt v u g f exp now sv owner bl rt' amt' eff now2 sv2 bl2 e2 rt2 amt2 eff2,
+  CancelStake_receive rt amt v u g f exp now sv owner = Ok (bl, 0, rt', amt', eff) ->
+  CancelStake_receive rt' amt' v u g f exp now2 sv2 owner = Ok (bl2, e2, rt2, amt2, eff2) ->
+  bl2 = [] \/ bl2 = [(owner, 0, ZnnTokenStandard)].
+Proof. exact cancel_stake_twice. Qed.
+Theorem C10_source_cancel_fuse_payout : forall fa v u f g exph h ge amt d1 d2 sender sv bl fa' e1 e2 e3,
+  CancelFuse_receive fa v u f g exph h ge amt d1 d2 sender sv = Ok (bl, 0, fa', e1, e2, e3) ->
+  bl = [(sender, amt, QsrTokenStandard)] /\ exph <= h /\ v = 0 /\ g = 0 /\
+  fa' = fa - amt /\ e1 = Some 1 /\ (e2 = Some 1 \/ e3 = Some 1).
+Proof. exact cancel_fuse_payout. Qed.
+Theorem C10_source_cancel_fuse_refusal : forall fa v u f g exph h ge amt d1 d2 sender sv bl e fa' e1 e2 e3,
+  CancelFuse_receive fa v u f g exph h ge amt d1 d2 sender sv = Ok (bl, e, fa', e1, e2, e3) -> e <> 0 ->
+  bl = [] /\ fa' = fa /\ e1 = None /\ e2 = None /\ e3 = None.
+Proof. exact cancel_fuse_refusal. Qed.
+Theorem C10_source_cancel_fuse_deleted : forall fa v u f exph h ge amt d1 d2 sender sv r,
+  CancelFuse_receive fa v u f Err_constants_ErrDataNonExistent exph h ge amt d1 d2 sender sv = Ok r ->
+  fst (fst (fst (fst (fst r)))) = [].
+Proof. exact cancel_fuse_deleted. Qed.
+Theorem C10_source_withdraw_qsr_payout : forall v g qsr d owner bl eff,
+  WithdrawQsr_receive v g qsr d owner = Ok (bl, 0, eff) ->
+  bl = [(owner, qsr, QsrTokenStandard)] /\ qsr <> 0 /\ v = 0 /\ eff = Some 1.
+Proof. exact withdraw_qsr_payout. Qed.
+Theorem C10_source_withdraw_qsr_refusal : forall v g qsr d owner bl e eff,
+  WithdrawQsr_receive v g qsr d owner = Ok (bl, e, eff) -> e <> 0 -> bl = [] /\ eff = None.
+Proof. exact withdraw_qsr_refusal. Qed.
+Theorem C10_source_reclaim_htlc_payout : forall v u g tl sender f now exp d amt zts bl eff,
+  ReclaimHtlc_receive v u g tl sender f now exp d amt zts = Ok (bl, 0, eff) ->
+  bl = [(tl, amt, zts)] /\ tl = sender /\ exp <= now /\ v = 0 /\ g = 0 /\ eff = Some 1.
+Proof. exact reclaim_htlc_payout. Qed.
+Theorem C10_source_reclaim_htlc_refusal : forall v u g tl sender f now exp d amt zts bl e eff,
+  ReclaimHtlc_receive v u g tl sender f now exp d amt zts = Ok (bl, e, eff) -> e <> 0 -> bl = [] /\ eff = None.
+Proof. exact reclaim_htlc_refusal. Qed.
+Theorem C10_source_unlock_htlc_payout : forall v u g proxy pe sender hl f now exp plen kmax ht heq d amt zts bl eff,
+  UnlockHtlc_receive v u g proxy pe sender hl f now exp plen kmax ht heq d amt zts = Ok (bl, 0, eff) ->
+  bl = [(hl, amt, zts)] /\ (proxy = true \/ sender = hl) /\ now < exp /\ plen <= wrapS 64 kmax /\ heq = true /\
+  v = 0 /\ g = 0 /\ eff = Some 1.
+Proof. exact unlock_htlc_payout. Qed.
+Theorem C10_source_unlock_htlc_refusal : forall v u g proxy pe sender hl f now exp plen kmax ht heq d amt zts bl e eff,
+  UnlockHtlc_receive v u g proxy pe sender hl f now exp plen kmax ht heq d amt zts = Ok (bl, e, eff) -> e <> 0 ->
+  bl = [] /\ eff = None.
+Proof. exact unlock_htlc_refusal. Qed.
+Theorem C10_source_revoke_sentinel_payout : forall rts v f nn can until znn qsr now owner bl rts' znn' qsr' eff,
+  RevokeSentinel_receive rts znn qsr v f nn can until now owner = Ok (bl, 0, rts', znn', qsr', eff) ->
+  bl = [(owner, znn, ZnnTokenStandard); (owner, qsr, QsrTokenStandard)] /\ nn = true /\ rts = 0 /\ can = true /\
+  rts' = now /\ znn' = 0 /\ qsr' = 0 /\ eff = Some 1.
+Proof. exact revoke_sentinel_payout. Qed.
+Theorem C10_source_revoke_sentinel_twice : forall rts v f nn can until znn qsr now owner bl rts' znn' qsr' eff v2 f2 can2 until2 now2 r,
+  0 < now ->
+  RevokeSentinel_receive rts znn qsr v f nn can until now owner = Ok (bl, 0, rts', znn', qsr', eff) ->
+  RevokeSentinel_receive rts' znn' qsr' v2 f2 nn can2 until2 now2 owner = Ok r ->
+  fst (fst (fst (fst (fst r)))) = [].
+Proof. exact revoke_sentinel_twice. Qed.
+Theorem C10_source_revoke_pillar_payout : forall rt amt v u g active stake sender f status left now sv bl rt' amt' eff,
+  RevokePillar_receive rt amt v u g active stake sender f status left now sv = Ok (bl, 0, rt', amt', eff) ->
+  bl = [(stake, PillarStakeAmount, ZnnTokenStandard)] /\ active = true /\ stake = sender /\ status = true /\
+  rt' = now /\ amt' = 0 /\ eff = Some 1.
+Proof. exact revoke_pillar_payout. Qed.
+Theorem C10_source_revoke_pillar_refusal : forall rt amt v u g active stake sender f status left now sv bl e rt' amt' eff,
+  RevokePillar_receive rt amt v u g active stake sender f status left now sv = Ok (bl, e, rt', amt', eff) -> e <> 0 ->
+  bl = [] /\ rt' = rt /\ amt' = amt /\ eff = None.
+Proof. exact revoke_pillar_refusal. Qed.
+Example C10_source_release_examples :
+  CancelStake_receive 0 100 0 0 0 0 50 60 0 7 = Ok ([(7, 100, ZnnTokenStandard)], 0, 60, 0, Some 1) /\
+  CancelFuse_receive 100 0 0 0 0 5 9 0 40 0 0 7 0 = Ok ([(7, 40, QsrTokenStandard)], 0, 60, Some 1, None, Some 1) /\
+  WithdrawQsr_receive 0 0 33 0 7 = Ok ([(7, 33, QsrTokenStandard)], 0, Some 1) /\
+  ReclaimHtlc_receive 0 0 0 7 7 0 60 50 0 10 3 = Ok ([(7, 10, 3)], 0, Some 1) /\
+  UnlockHtlc_receive 0 0 0 false 0 8 8 0 40 50 32 32 0 true 0 10 3 = Ok ([(8, 10, 3)], 0, Some 1) /\
+  RevokeSentinel_receive 0 5 6 0 0 true true 0 60 7 = Ok ([(7, 5, ZnnTokenStandard); (7, 6, QsrTokenStandard)], 0, 60, 0, 0, Some 1) /\
+  RevokePillar_receive 0 15 0 0 0 true 7 7 0 true 0 60 0 = Ok ([(7, PillarStakeAmount, ZnnTokenStandard)], 0, 60, 0, Some 1).
+Proof. exact release_examples. Qed.
